@@ -13,13 +13,27 @@
    c16_never_stranded, c16_join_returns_after (+ _history).  `stale s = false` = "the last reset of the counter to zero
    was a consumer's exit, not the roll-back of a refused launch" - this is the property's "as long as the executor
    accepts the launch"; it is re-established by the exit of the next consumer that runs (resumption after a refusal).
-   Liveness ("and it does return"): c16_join_returns - no reachable state with an unfinished thread is a deadlock
-   (unless a refused launch is outstanding), and while join() has to wait the unique owner of the counter is enabled
-   (c16_join_returns_owner_enabled).  The step from "never stuck" to "terminates under a fair scheduler" (every
-   consumer loop iteration either consumes, or waits for a producer that is itself enabled) is the standard argument and
-   is not mechanised. *)
+   Liveness ("and it does return"):
+   * c16_join_returns - no reachable state with an unfinished thread is a deadlock (unless a refused launch is
+     outstanding); c16_join_returns_owner_enabled - while join() has to wait the unique owner of the counter is enabled;
+   * termination, mechanised for the phase after the producers are through (`pquiet s`: no thread between taking a
+     ticket and its fetch_add, only join() ops left in the client programs; a producer may still be retrying its launch
+     in start_consumer, the fault list is arbitrary and finite = "an executor that eventually accepts"):
+     c16_join_returns_steps_bounded - under ANY schedule at most `mu s` further steps are taken at all (every step
+     strictly decreases the measure mu: 3 per unused fault-list entry, 6 per unpopped ticket, remaining ops and a
+     pc weight per thread); c16_join_returns_quiet_never_stuck - in such states somebody is enabled while anybody is
+     unfinished (whatever the refusal history); c16_join_returns_fair - hence every weakly fair infinite schedule
+     (fairness notion: for every thread t and index n there is m >= n at which t is picked or is not enabled, i.e. no
+     thread stays enabled for ever without being picked) reaches a state in which every thread has finished: every
+     join() has returned.
+     NOT mechanised: that a fair schedule reaches a producers-quiet state from an arbitrary reachable state (the
+     producers' own steps are finitely many, but while a producer sits between ticket and publish the consumer spins
+     in the poll/size loop, so that phase needs the fairness argument on the ticket holder; capacity-blocked producers
+     need the consumer's progress).  There the result is deadlock-freedom (c16_join_returns) only.
+   Resumption: c16_refused_then_resumes (+ c16_accepted_launch_creates_consumer) - step level, for arbitrary refusal
+   histories. *)
 From Coq Require Import ZArith List Bool.
-Require Import Verif.Gen.Gen_execution_queue Verif.Conc.Machine Verif.EQ.EQModel Verif.EQ.EQProofs.
+Require Import Verif.Gen.Gen_execution_queue Verif.Gen.Gen_execution_queue_sites Verif.Conc.Machine Verif.EQ.EQModel Verif.EQ.EQProofs.
 Import ListNotations.
 Local Open Scope Z_scope.
 
@@ -105,10 +119,50 @@ Theorem c16_join_returns_owner_enabled : forall cap asy flt progs s, (1 <= cap)%
 Proof. exact eq_waiting_join_has_enabled_owner. Qed.
 Print Assumptions c16_join_returns_owner_enabled.
 
+(* termination after the producers are through: bound on the number of steps under any schedule *)
+Theorem c16_join_returns_steps_bounded : forall cap asy flt progs s sch, (1 <= cap)%nat -> Reach cap asy flt progs s ->
+  pquiet s = true -> (taken s sch + mu (run st step s sch) <= mu s)%nat.
+Proof. exact eq_quiet_steps_bounded_reach. Qed.
+Print Assumptions c16_join_returns_steps_bounded.
+
+Theorem c16_join_returns_quiet_never_stuck : forall cap asy flt progs s, (1 <= cap)%nat -> Reach cap asy flt progs s ->
+  pquiet s = true -> all_done s = false -> exists t, step s t <> None.
+Proof. exact eq_quiet_enabled_reach. Qed.
+Print Assumptions c16_join_returns_quiet_never_stuck.
+
+(* ... hence every weakly fair schedule makes every join() return *)
+Theorem c16_join_returns_fair : forall cap asy flt progs s f, (1 <= cap)%nat -> Reach cap asy flt progs s ->
+  pquiet s = true -> weakly_fair s f -> exists n, all_done (state_at s f n) = true.
+Proof. exact eq_fair_termination. Qed.
+Print Assumptions c16_join_returns_fair.
+
+(* after refused launches the next accepted signal resumes consumption of everything pending - step level, for ANY
+   history of refusals (no hypothesis on `stale s`): an accepted launch hands the launcher's ownership of the counter
+   to exactly one new consumer activation ... *)
+Theorem c16_accepted_launch_creates_consumer : forall cap asy flt progs s t th e s', (1 <= cap)%nat ->
+  Reach cap asy flt progs s -> nth_error (threads s) t = Some th -> tpc th = PSubmit e ->
+  match faults s with b :: _ => b = false | [] => True end -> step s t = Some s' ->
+  exists t' th', nth_error (threads s') t' = Some th' /\ tpc th' = CStart /\ 0 < events s' /\
+                 owners (threads s') = 1%nat.
+Proof. exact eq_accepted_launch_creates_consumer. Qed.
+Print Assumptions c16_accepted_launch_creates_consumer.
+
+(* ... and when a consumer activation exits (its CAS to zero succeeds) every item signalled so far - in particular
+   everything that was pending when it was launched - has been delivered, and the counter is again "reset by a
+   consumer" (stale = false), so c16_never_stranded applies from then on.  While the activation lives it is the unique
+   owner (c16_events_iff_owner): no roll-back of a refused launch can intervene before its exit. *)
+Theorem c16_refused_then_resumes : forall cap asy flt progs s t th seen s', (1 <= cap)%nat -> Reach cap asy flt progs s ->
+  nth_error (threads s) t = Some th -> tpc th = CCas seen -> step s t = Some s' -> events s' = 0 ->
+  stale s' = false /\
+  (forall k x, nth_error (cells s') k = Some x -> csig x = true -> (k < ndel s')%nat).
+Proof. exact eq_exit_leaves_nothing_signalled. Qed.
+Print Assumptions c16_refused_then_resumes.
+
 (* the memory orders the argument relies on are the ones in the source; push is ticket-then-publish; size() reads
-   both indices *)
-Theorem c16_memory_order_obligations : orders_ok = true /\ push_is_ticketed = true /\ size_is_two_loads = true.
-Proof. exact (conj eq_orders_ok (conj eq_push_is_ticketed eq_size_is_two_loads)). Qed.
+   both indices; the roll-back of a refused launch is the CAS retry loop (the model reads this) *)
+Theorem c16_memory_order_obligations : orders_ok = true /\ push_is_ticketed = true /\ size_is_two_loads = true /\
+  rollback_is_fetch_sub = false.
+Proof. exact (conj eq_orders_ok (conj eq_push_is_ticketed (conj eq_size_is_two_loads g_rb_kind))). Qed.
 Print Assumptions c16_memory_order_obligations.
 
 (* non-vacuity: a run with a refused launch, a recovery signal that is accepted, and everything consumed *)
@@ -125,3 +179,9 @@ Example c16_gap_example : Reach 4 true [] gap_progs gap_state /\ events gap_stat
   (exists th, nth_error (threads gap_state) 0 = Some th /\ results th = [RExec 0]) /\
   (exists th, nth_error (threads gap_state) 2 = Some th /\ is_consumer th = true).
 Proof. exact gap_example. Qed.
+
+(* non-vacuity of the termination theorems: a reachable producers-quiet state with join() waiting (disabled), the
+   launched consumer not yet started; measure 18 *)
+Example c16_waiting_example : Reach 2 true [] waiting_progs waiting_state /\ pquiet waiting_state = true /\
+  all_done waiting_state = false /\ events waiting_state = 1 /\ step waiting_state 0 = None /\ mu waiting_state = 18%nat.
+Proof. exact waiting_example. Qed.
